@@ -641,6 +641,72 @@ pub fn replay(prop: &'static str, case: &Value) -> Option<Vec<Violation>> {
 }
 
 // ------------------------------------------------------------------------------------------------
+// Display into a sink that fails: an environment fault at every point of the output
+
+/// Every value of a small pool formatted into a sink that accepts b bytes, for EVERY b from 0 to the
+/// length of the output. Display must return (C06: no panic - an `unwrap` on a write is one), must
+/// report an error exactly when something did not fit, and whatever it wrote must be a prefix of the
+/// canonical string (C03).
+pub fn limited_sink_sweep(prop: &'static str) -> (Acc, Value) {
+    use std::fmt::Write as _;
+    struct Limited {
+        buf: String,
+        left: usize,
+    }
+    impl std::fmt::Write for Limited {
+        fn write_str(&mut self, s: &str) -> std::fmt::Result {
+            if s.len() > self.left {
+                return Err(std::fmt::Error);
+            }
+            self.left -= s.len();
+            self.buf.push_str(s);
+            Ok(())
+        }
+    }
+    let mut inputs: Vec<String> = vec![
+        "pkg:t/n".into(),
+        "pkg:t/g/h/n@1.0?a=1&b=2&checksum=a:00,b:ff&k=x%20y#s/t".into(),
+        "pkg:npm/%40s/n@1?a=1&z=2".into(),
+        "pkg:maven/g/n?classifier=c&type=jar&repository_url=u".into(),
+        "pkg:t/%C3%A9@%C3%A9?k=%C3%A9&l=%26#%C3%A9".into(),
+    ];
+    let l = lens::lens("A1b");
+    for a in l.alphabet.iter() {
+        for b in l.alphabet.iter() {
+            inputs.push(format!("pkg:t/{a}{b}"));
+        }
+    }
+    let acc = par_items(inputs.len(), threads(), |i, acc| {
+        let s = &inputs[i];
+        let Ok(Ok(p)) = guarded(|| <String as PFlavor>::parse(s)) else { return };
+        let Ok(full) = guarded(|| p.to_string()) else { return };
+        for budget in 0..=full.len() + 1 {
+            acc.evals += 1;
+            acc.calls += 1;
+            let case = json!({"engine": "limited-sink", "input": s, "budget": budget});
+            let mut sink = Limited { buf: String::new(), left: budget };
+            match guarded(|| write!(sink, "{}", p)) {
+                Err(m) => acc.violate(Violation { prop: "C06", kind: "panic".into(), case, detail: format!("Display panics when the writer refuses a chunk after {} bytes: {m}", sink.buf.len()) }),
+                Ok(r) => {
+                    acc.sig(&(r.is_ok(), budget.min(3)));
+                    if prop == "C03" {
+                        if !full.starts_with(sink.buf.as_str()) {
+                            acc.violate(Violation { prop: "C03", kind: "partial-output-not-a-prefix".into(), case: case.clone(), detail: format!("wrote {:?}, the canonical string is {:?}", sink.buf, full) });
+                        }
+                        if r.is_ok() != (sink.buf == full) || (budget >= full.len() && r.is_err()) {
+                            acc.violate(Violation { prop: "C03", kind: "sink-result".into(), case, detail: format!("budget {budget}, result ok = {}, wrote {:?} of {:?}", r.is_ok(), sink.buf, full) });
+                        }
+                    }
+                },
+            }
+            acc.nontrivial += 1;
+        }
+    });
+    let rep = json!({"engine": "H-limited-sinks", "values": inputs.len(), "formatting_attempts": acc.evals, "oracle": "no panic; error iff something did not fit; what was written is a prefix of the canonical string"});
+    (acc, rep)
+}
+
+// ------------------------------------------------------------------------------------------------
 // a violation that does not reproduce from its case alone
 
 /// Re-execute `inner` (any replayable case) after the operations of `history`, all in one fresh thread.
